@@ -55,5 +55,14 @@ Theorem C08_full_step : forall n m dt e0 e1 lam Cm (s : tstate (T:=R)),
 Proof. exact step_eh_props. Qed.
 Print Assumptions C08_full_step.
 
+(* any number of Ehrenfest passes (Model/Traj.run_eh): the label is the initial one, time = t0 + N dt, and the density
+   matrix is the electronic-only product of exp steps - hence a valid state by C02 *)
+Theorem C08_full_run : forall n m dt (ds : list (sdata (T:=R))) (s : tstate (T:=R)),
+  let sf := run_eh ROps n m dt ds s in
+  pact sf = pact s /\ ptime sf = ptime s + INR (length ds) * dt
+  /\ prho sf = exp_steps n (map (fun d => (dlam d, dC d, dt)) ds) (prho s).
+Proof. intros. apply run_eh_invariants. Qed.
+Print Assumptions C08_full_run.
+
 Example C08_witness : eh_force_code ROps 2 rho_w force_w = [0].
 Proof. apply ehrenfest_force_differs. Qed.
